@@ -97,9 +97,9 @@ pub fn run(ctx: &Ctx) -> i32 {
     });
     // structural giants (sequential: each is large)
     let mut gctx = ctx.clone();
-    gctx.threads = 6;
-    let giants = run_stage(&gctx, "giants", 6, |k| {
-        let (sp, name) = giant(if k == 3 || k == 4 || k == 5 { k } else if k == 2 { 99 } else { k });
+    gctx.threads = 7;
+    let giants = run_stage(&gctx, "giants", 7, |k| {
+        let (sp, name) = giant(if k >= 3 { k } else if k == 2 { 99 } else { k });
         let mut rng = Rng::derive(ctx.seed, "C01-giant", k);
         let mut o = ObsOpts::no_images();
         if let Some(p) = &sp.palette {
@@ -127,7 +127,7 @@ pub fn run(ctx: &Ctx) -> i32 {
         sum,
         Finish {
             rule: "PRNG-generated well-formed sprite models (all three formats, layer forests, attribute extremes) each encoded under a random spec-conformant chunk program; distinct = distinct model feature hash (canvas, layers, cels, pixels, attribute counts); every model is non-trivial (>=1 layer, >=1 frame)".into(),
-            coverage_extra: json!({"programs_per_model": programs_per_model, "giants": ["65535 frames", "65535 tags", "4096 layers", "300 layers x 300 frames with links into frames >= 256", "300 tags / slices (one with 300 keys) / external files / tilesets / palette entries", "65548 layers with groups and nested children beyond index 65535"]}),
+            coverage_extra: json!({"programs_per_model": programs_per_model, "giants": ["65535 frames", "65535 tags", "4096 layers", "300 layers x 300 frames with links into frames >= 256", "300 tags / slices (one with 300 keys) / external files / tilesets / palette entries", "65548 layers with groups and nested children beyond index 65535", "70000 palette entries / slices (one with 70000 keys) / external files / tilesets"]}),
             assumptions: vec!["the harness encoder writes the format as the Aseprite file spec describes it (cross-checked against the GUI-produced corpus by the C07/C13 corpus walks)".into()],
             exhaustive: false,
             min_evaluations: 100,
